@@ -350,6 +350,85 @@ def gapOfString (s : Str) : Str := s.take 10
 
 def stringify (gap : Str) (v : JVal) : Str := ser gap [] v
 
+/-! ## Replacer allow-list (PropertyList) for JSON-representable values — ECMA-262 §25.5.2 step 4.b, SerializeJSONObject step 5 -/
+
+/-- PropertyList: the items in order, first occurrence of each only -/
+def propList (items : List Str) : List Str :=
+  items.foldl (fun acc k => if acc.contains k then acc else acc ++ [k]) []
+
+def lookupText (k : Str) : List (Str × Str) → Option Str
+  | [] => none
+  | (k', x) :: t => if k' = k then some x else lookupText k t
+
+/-- for each key of the list, in list order, the member text if the object has that key -/
+def selectTexts : List Str → List (Str × Str) → List (Str × Str)
+  | [], _ => []
+  | k :: pl, mt =>
+    match lookupText k mt with
+    | some x => (k, x) :: selectTexts pl mt
+    | none => selectTexts pl mt
+
+/-- `"key":` (+ space) `text`, separated by "," (+ newline, indent), closed by the brace at indent `ind` -/
+def joinMembers (gap ind ind' : Str) : List (Str × Str) → Str
+  | [] => nl gap ind ++ [125]
+  | (k, x) :: t => quote k ++ (colon gap ++ (x ++ (sepIf (!t.isEmpty) gap ind' ++ joinMembers gap ind ind' t)))
+
+def assembleObj (gap ind : Str) (parts : List (Str × Str)) : Str :=
+  if parts.isEmpty then [123, 125] else 123 :: (nl gap (ind ++ gap) ++ joinMembers gap ind (ind ++ gap) parts)
+
+mutual
+/-- SerializeJSONProperty with a PropertyList `pl` -/
+def serP (pl : List Str) (gap ind : Str) : JVal → Str
+  | .null => [110, 117, 108, 108]
+  | .bool true => [116, 114, 117, 101]
+  | .bool false => [102, 97, 108, 115, 101]
+  | .num l => l
+  | .str s => quote s
+  | .arr xs =>
+    if xs.isEmpty then [91, 93]
+    else 91 :: (nl gap (ind ++ gap) ++ serElemsP pl gap ind (ind ++ gap) xs)
+  | .obj ms => assembleObj gap ind (selectTexts pl (memberTexts pl gap (ind ++ gap) ms))
+def serElemsP (pl : List Str) (gap ind ind' : Str) : List JVal → Str
+  | [] => nl gap ind ++ [93]
+  | v :: t => serP pl gap ind' v ++ (sepIf (!t.isEmpty) gap ind' ++ serElemsP pl gap ind ind' t)
+/-- text of every member value (SerializeJSONProperty(P, value) for the keys the object has) -/
+def memberTexts (pl : List Str) (gap ind' : Str) : List (Str × JVal) → List (Str × Str)
+  | [] => []
+  | (k, v) :: t => (k, serP pl gap ind' v) :: memberTexts pl gap ind' t
+end
+
+def stringifyPL (items : List Str) (gap : Str) (v : JVal) : Str := serP (propList items) gap [] v
+
+/-! the same as a projection of the value -/
+
+def lookupKey (k : Str) : List (Str × JVal) → Option JVal
+  | [] => none
+  | (k', v) :: t => if k' = k then some v else lookupKey k t
+
+def selectMembers : List Str → List (Str × JVal) → List (Str × JVal)
+  | [], _ => []
+  | k :: pl, ms =>
+    match lookupKey k ms with
+    | some v => (k, v) :: selectMembers pl ms
+    | none => selectMembers pl ms
+
+mutual
+/-- the value restricted, at every object level, to the keys of the list, in list order -/
+def project (pl : List Str) : JVal → JVal
+  | .null => .null
+  | .bool b => .bool b
+  | .num l => .num l
+  | .str s => .str s
+  | .arr xs => .arr (projectList pl xs)
+  | .obj ms => .obj (selectMembers pl (projectMembers pl ms))
+def projectList (pl : List Str) : List JVal → List JVal
+  | [] => []
+  | v :: t => project pl v :: projectList pl t
+def projectMembers (pl : List Str) : List (Str × JVal) → List (Str × JVal)
+  | [] => []
+  | (k, v) :: t => (k, project pl v) :: projectMembers pl t
+end
+
 /-! ## Exact decimal → double (driver only) -/
 
 structure Dec where
